@@ -9,6 +9,18 @@ class Boom(Exception):
     pass
 
 
+def old_style(coro):
+    """The same awaitable as a generator-based coroutine (``types.coroutine``): accepted by ``await``, no
+    ``__await__`` attribute - the third kind of awaitable the library's own ``is_awaitable`` knows."""
+    import types
+
+    @types.coroutine
+    def gen():
+        return (yield from coro.__await__())
+
+    return gen()
+
+
 def make_field_resolver(oracle, log, out_names=False):
     def resolve(src, info, **kwargs):
         args = {(k[3:] if out_names and k.startswith("py_") else k): v for k, v in kwargs.items()}
@@ -67,6 +79,12 @@ def make_async_resolvers(oracle, sched, plan, events, log, out_names=False, sour
     def pstr(path):
         return "/".join(str(p) for p in path)
 
+    def flavour(coro, kind, path):
+        from vkit.ref.execute import H
+
+        # one awaitable in eight is a generator-based coroutine instead of a native one
+        return old_style(coro) if H(plan.seed, "flavour:" + kind, path) % 8 == 0 else coro
+
     def wrap(raw, path):
         raw = hide(raw)
         if isinstance(raw, list):
@@ -99,7 +117,8 @@ def make_async_resolvers(oracle, sched, plan, events, log, out_names=False, sour
             out = []
             for i, item in enumerate(raw):
                 if plan.is_async("item", path + [i]) and not isinstance(item, list):
-                    out.append(_later(sched, "i:" + pstr(path + [i]), item, events, path + [i], stats))
+                    out.append(flavour(_later(sched, "i:" + pstr(path + [i]), item, events, path + [i], stats),
+                                       "item", path + [i]))
                 else:
                     out.append(item)
             return out
@@ -109,6 +128,9 @@ def make_async_resolvers(oracle, sched, plan, events, log, out_names=False, sour
         args = {(k[3:] if out_names and k.startswith("py_") else k): v for k, v in kwargs.items()}
         path = info.path.as_list()
         log.append((path, f"{info.parent_type.name}.{info.field_name}", args))
+        if len(path) == 1 and info.root_value is not src and stats is not None:
+            # at a top-level field the source value *is* the root value of this execution
+            stats["root_value_mismatch"] = stats.get("root_value_mismatch", 0) + 1
         events.append(("start", path))
         raw = oracle.raw(src, info.parent_type.name, info.field_name, args)
         if plan.long and len(path) == 1 and isinstance(raw, list) and raw:
@@ -121,6 +143,10 @@ def make_async_resolvers(oracle, sched, plan, events, log, out_names=False, sour
                         await sched.gate("f:" + pstr(path))
                     except asyncio.CancelledError:
                         events.append(("cancel", path))
+                        if plan.is_async("close", path):
+                            # a resolver that needs a moment to unwind after it was cancelled (same stratum as
+                            # the asynchronous finalisation of sources); it still counts as in flight
+                            await sched.gate("close:unwind:" + pstr(path))
                         raise
                     events.append(("finish", path))
                     if isinstance(raw, Raise):
@@ -129,21 +155,25 @@ def make_async_resolvers(oracle, sched, plan, events, log, out_names=False, sour
                 finally:
                     stats["inflight"] -= 1
 
-            return later()
+            return flavour(later(), "field", path)
         events.append(("finish", path))
         if isinstance(raw, Raise):
             raise Boom(raw.message)
         return wrap(raw, path)
 
     def is_type_of(name, value, info):
+        from vkit.ref.execute import H
+
         ok = (value.get("__tn") if isinstance(value, dict) else None) == name
         path = info.path.as_list()
+        if not ok and H(plan.seed, "falsy", path + [name]) % 3 == 0:
+            ok = None  # "no" as a function that falls off its end says it: falsy, but not False
         if plan.is_async("type", path + [name]):
             async def later():
                 await sched.gate("is:" + pstr(path) + ":" + name)
                 return ok
 
-            return later()
+            return flavour(later(), "type", path + [name])
         return ok
 
     resolve.is_type_of = is_type_of
